@@ -18,6 +18,7 @@ func init() {
 type verifReq struct {
 	query, param, header, cookie, form, mapbody string
 	xn                                         string
+	big                                        string
 	body                                       []byte
 }
 
@@ -42,6 +43,9 @@ func (r *verifReq) GetCookie(k string) string {
 func (r *verifReq) GetQuery(k string) string {
 	if k == "k" {
 		return r.query
+	}
+	if k == "b" {
+		return r.big
 	}
 	return ""
 }
@@ -98,12 +102,14 @@ func VerifC17_Request() {
 	fq := thrift.VerifAddField(st, thrift.VField{ID: 1, Name: "q", Type: thrift.VerifBasic(thrift.STRING), Req: r}, thrift.Options{})
 	fn := thrift.VerifAddField(st, thrift.VField{ID: 2, Name: "n", Type: thrift.VerifBasic(thrift.I32), Req: 2}, thrift.Options{})
 	thrift.VerifAddField(st, thrift.VField{ID: 3, Name: "plain", Type: thrift.VerifBasic(thrift.STRING), Req: 2}, thrift.Options{})
+	fbig := thrift.VerifAddField(st, thrift.VField{ID: 4, Name: "big", Type: thrift.VerifBasic(thrift.I64), Req: 2}, thrift.Options{})
 	var hms []thrift.HttpMapping
 	for _, k := range list {
 		hms = append(hms, annotation.VerifHTTP(k, "k"))
 	}
 	thrift.VerifAddHTTP(st, fq, hms...)
 	thrift.VerifAddHTTP(st, fn, annotation.VerifHTTP(3, "X-N"))
+	thrift.VerifAddHTTP(st, fbig, annotation.VerifHTTP(1, "b"))
 	thrift.VerifBuild(st)
 
 	opts := conv.Options{
@@ -134,6 +140,11 @@ func VerifC17_Request() {
 	if hasN {
 		req.xn = string([]byte{nd})
 	}
+	// an i64 field from the query: boundary values of the 32- and 64-bit ranges (BIG picks one, 0 = absent)
+	bigTexts := []string{"", "2147483648", "-2147483649", "9223372036854775807", "-9223372036854775808", "4294967296", "7"}
+	bigVals := []int64{0, 2147483648, -2147483649, 9223372036854775807, -9223372036854775808, 4294967296, 7}
+	big := vrt.Param("BIG")
+	req.big = bigTexts[big]
 	var body []byte
 	bodyQ, bodyPlain := false, false
 	if bodyKind == 1 {
@@ -209,6 +220,11 @@ func VerifC17_Request() {
 	// the un-annotated optional field comes from the body or not at all (no optional bitmap in this schema; C16 covers that)
 	if bodyPlain {
 		want = vrt.PutString(vrt.PutField(want, vrt.TSTRING, 3), []byte("pp"))
+	}
+	if big > 0 {
+		want = vrt.PutBE64(vrt.PutField(want, vrt.TI64, 4), bigVals[big])
+	} else if opts.WriteOptionalField {
+		want = vrt.PutBE64(vrt.PutField(want, vrt.TI64, 4), 0)
 	}
 	want = append(want, 0)
 
